@@ -121,7 +121,7 @@ class MatchingBindingFilter(BindingFilter):
                     f"any target deployment. Please check for potential typos in the filter: "
                     f"{filter_deployments - target_deployments}"
                 )
-        filtered_targets = set()
+        filtered_targets = []
         for target in targets:
             if any(
                 matching_rule.eval(
@@ -131,12 +131,12 @@ class MatchingBindingFilter(BindingFilter):
                 )
                 for matching_rule in self.matching_rules
             ):
-                filtered_targets.add(target)
+                filtered_targets.append(target)
         if len(filtered_targets) == 0:
             raise WorkflowExecutionException(
                 f"Filter {self.name} did not find any matching targets for job {job.name} with the provided inputs."
             )
-        return list(filtered_targets)
+        return filtered_targets
 
     @classmethod
     def get_schema(cls) -> str:
